@@ -32,10 +32,53 @@ def full_alphabet_suite(chk, mdl, have):
     """quick tier only: the same suite with EVERY ASCII character (and 128, 200, 255) after every access string, so that a single
     character handled differently from the rest of its class (a dropped or misplaced case label) cannot hide behind the
     one-representative-per-class suite; run on one entry point"""
-    if chk.tier != "quick": return []
-    _, full = parsesuite.automaton_suite(mdl, 1)
     have = set(have)
-    return [f for f in full if f not in have]
+    if chk.tier != "quick":
+        # thorough: the two-step suite (state x every character x every class representative), every second string
+        return [f for f in parsesuite.two_step_suite(mdl, 2, chk.seed % 2) if f not in have]
+    _, full = parsesuite.automaton_suite(mdl, 1)
+    two = parsesuite.two_step_suite(mdl, 16, chk.seed % 16)
+    return [f for f in sorted(set(full + two)) if f not in have]
+
+def search_failing_input(chk, exes, mdl, corr_breaks, narrow, model_cache):
+    rng = chk.rng
+    tails = set()
+    for f in narrow:
+        if not model_cache.get("parse %s 3" % f, "").startswith("parse 0"): continue
+        d = dec(f) or []
+        for k in range(len(d)):
+            if len(d) - k <= 12: tails.add(tuple(d[k:]))
+    tails = sorted(tails)
+    if len(tails) > 4000: tails = rng.sample(tails, 4000)
+    tails += [tuple(ord(c) for c in t) for t in (".2.3.4]", ".2.3.4]/", "1.2.3.4]", ":1.2.3.4]", "]", "]:8", "::]", ":]", "%41", "@h", ":8", "/", "?", "#")]
+    seen = set(); cands = []
+    for rq, fl, o, m in corr_breaks[:400]:
+        f = rq.split()
+        if f[1] in seen or len(seen) >= 40: continue
+        seen.add(f[1])
+        d = dec(f[1]) or []
+        if fl.startswith("A") and any(c > 255 for c in d): continue
+        for cut in (0, 1, 2):
+            pre = d[:len(d) - cut] if cut <= len(d) else []
+            for t in tails: cands.append((fl, enc(pre + list(t))))
+    by_fl = {}
+    for fl, f in cands: by_fl.setdefault(fl, set()).add(f)
+    for fl, fs in by_fl.items():
+        fs = sorted(fs)
+        reqs = ["parse %s 3" % f for f in fs]
+        impl = lib.run_lines(exes[fl], reqs)
+        oreq = ["spec_uri %s %s" % (f, (o.split()[2] if len(o.split()) > 2 else "null")) for f, o in zip(fs, impl)]
+        spec = lib.run_lines(mdl, oreq)
+        chk.cov["evaluations"] += len(reqs)
+        for rq, o, spl in zip(reqs, impl, spec):
+            of = o.split(); sp = spl.split()
+            if len(of) < 3 or len(sp) < 3: continue
+            bad = None
+            if sp[0] == "1" and of[1] != "0": bad = "a valid URI reference is rejected (rc=%s)" % of[1]
+            elif sp[0] != "1" and of[1] == "0": bad = "an invalid text is accepted"
+            elif sp[0] != "1" and of[1] == "1" and of[2] != "null" and sp[2] != "1": bad = "error position %s is not the first dead character %s (nor inside the same IP literal)" % (of[2], sp[1])
+            if bad: return rq, fl, o, sp, bad
+    return None
 
 def run(chk):
     proofs = lib.check_proofs(PID)
@@ -103,6 +146,17 @@ def run(chk):
                     rejected += 1
                     if len(of) > 2 and of[2] != sp[1]: inlit += 1
                 nontrivial.add((rq.split()[1], sp[0], of[2] if len(of) > 2 else ""))
+    if corr_breaks and oracle_fail == 0:
+        # model and code disagree but no oracle failed (typically: another error position inside a literal, which the property
+        # allows).  Search for an input on which the property itself fails: the disagreeing texts, cut back by up to two
+        # characters, continued with tails of accepted texts.
+        found = search_failing_input(chk, exes, mdl, corr_breaks, narrow, model_cache)
+        if found:
+            rq, fl, o, sp, bad = found
+            oracle_fail += 1
+            chk.violation(bad + " (found by the search that follows a broken correspondence)",
+                          {"request": rq, "input": show(rq.split()[1]), "build": fl, "impl": o, "spec": {"matches": sp[0], "first_dead": sp[1]},
+                           "correspondence_first_broken_on": corr_breaks[0][0]})
     if corr_breaks and oracle_fail == 0:
         rq, fl, o, m = corr_breaks[0]
         chk.violation("correspondence broken: Model/Parse.v and the implementation disagree on return code / error position (%d cases)" % len(corr_breaks),
